@@ -130,7 +130,18 @@ func PIDClassesStream(seed int64) *Stream {
 func ContinuousSectionsStream(seed int64) *Stream {
 	var ps []*ref.Pkt
 	c0, c1, c2 := uint8(0), uint8(4), uint8(8)
-	ps = append(ps, Packetize(PSIUnit(0, 0, [][]byte{SecPAT(modelPAT(0, 0x10, 1, 0x1000), ref.SecHdr{CNI: true})}, nil), nil, &c0, true)...)
+	ps = append(ps, Packetize(PSIUnit(0, 0, [][]byte{SecPAT(modelPAT(0, 0x10, 1, 0x1000, 2, 0x1001), ref.SecHdr{CNI: true})}, nil), nil, &c0, true)...)
+	// second PMT PID: a section of two packets whose end shares its packet with a complete small section, twice
+	// (one unit-start packet both ends the pending unit and completes its own)
+	{
+		c3 := uint8(12)
+		var secs [][]byte
+		for k := 0; k < 2; k++ {
+			secs = append(secs, SecPMT(modelPMT(2, 0x200, 14+k), ref.SecHdr{CNI: true, Version: uint8(2 * k)}), SecPMT(modelPMT(2, 0x200, 1), ref.SecHdr{CNI: true, Version: uint8(2*k + 1)}))
+		}
+		q, _, _ := packContinuous(0x1001, secs, &c3)
+		ps = append(ps, q...)
+	}
 	var sdt, pmt [][]byte
 	for k := 0; k < 4; k++ {
 		sdt = append(sdt, SecSDT(modelSDT(2+k%3), ref.SecHdr{CNI: true, SN: uint8(k), LSN: 3}))
@@ -336,7 +347,7 @@ func checkC19(c *mc.Ctx) {
 		}
 		c19Parsers(c, st, refPk)
 	}
-	c.Ev.Require("mixed-skip-vector", "structured-predicate", "parser-observer", "parser-replacer", "parser-replacer-returns-nothing", "parser-identity-replacer", "parser-constant-slice-replacer")
+	c.Ev.Require("mixed-skip-vector", "structured-predicate", "parser-observer", "parser-replacer", "parser-replacer-returns-nothing", "parser-identity-replacer", "parser-constant-slice-replacer", "parser-failing-on-non-pat-unit")
 }
 
 // IdenticalRunsStream carries runs of byte-identical packets (null packets with the same undefined
@@ -681,6 +692,42 @@ func c19Parsers(c *mc.Ctx, st *Stream, refPk []*ref.Pkt) {
 			}
 		default:
 			c.Ev.Class("parser-failing", 1)
+			// a parser failing on a unit that is not a PAT changes nothing else: every other unit is still handed over
+			// exactly once, and every other datum is delivered
+			if mode < len(kept) && len(kept[mode]) > 0 && kept[mode][0].Header.PID != 0 && st.Name != "headless-lookalikes" {
+				failPID := kept[mode][0].Header.PID
+				stripped := map[uint16][][]int{}
+				for pid, gs := range groups {
+					for _, g := range gs {
+						var h []int
+						for _, i := range g {
+							if i >= 0 {
+								h = append(h, i)
+							}
+						}
+						stripped[pid] = append(stripped[pid], h)
+					}
+				}
+				if mc.Canon(stripped) != mc.Canon(expGroups) {
+					rep("parser-unit-partition", fmt.Sprintf("parser failing on a unit of PID %#x: it saw groups %v, the stream carries %v", failPID, stripped, expGroups))
+				}
+				pb, gb := map[uint16]int{}, map[uint16]int{}
+				for _, x := range plainObjs.Data {
+					pb[x.PID]++
+				}
+				for _, x := range o.Data {
+					gb[x.PID]++
+				}
+				for pid, n := range pb {
+					if pid != failPID && gb[pid] != n {
+						rep("parser-failure-alters-output", fmt.Sprintf("parser failing on a unit of PID %#x: PID %#x delivers %d data instead of %d", failPID, pid, gb[pid], n))
+					}
+				}
+				if len(o.Errs) > 1 { // (a failure in the end-of-stream dump is logged, not returned)
+					rep("parser-failure-alters-output", fmt.Sprintf("parser failing once: %d errors returned (%v)", len(o.Errs), errStrings(o.Errs)))
+				}
+				c.Ev.Class("parser-failing-on-non-pat-unit", 1)
+			}
 			// everything delivered on a PID is a subsequence of that PID's default output (across PIDs the order may
 			// change: a PAT that failed to parse is not learnt, and a PMT unit that preceded the next PAT is then
 			// delivered when its successor starts)
